@@ -2,6 +2,8 @@ import SnaxVerif.Lemmas.PhsMerge
 /-! C20: what `combine` (the model of `append_to_abstract_graph`) establishes. Core Lean only. -/
 namespace SnaxVerif.Phs
 
+variable [Variant]
+
 /-! ### symbol tables under append / set -/
 
 theorem findId_append (id : String) (n : Node) : ∀ (l : List Node) (p : Nat),
@@ -455,7 +457,7 @@ theorem Inv.wf {A : PE} (h : Inv A) (hcu : CU A) : A.wf = true := by
     simp only [nodeSwOk, List.getElem?_eq_getElem hj', decide_eq_true_eq]
     exact h.swOk j _ (List.getElem?_eq_getElem hj')
 
-theorem hasClass_iff (cur : List OpCode) (c : String) : hasClass cur c = true ↔ ∃ x, x ∈ cur ∧ x.cls = c := by
+theorem hasClass_iff (cur : List OpCode) (c : OpCode) : hasClass cur c = true ↔ ∃ x, x ∈ cur ∧ sameOp x c = true := by
   simp [hasClass, List.any_eq_true]
 
 theorem insertOps_left (o : OpCode) : ∀ (new cur : List OpCode), o ∈ cur → o ∈ insertOps cur new
@@ -482,7 +484,7 @@ theorem insertOps_sub (o : OpCode) : ∀ (new cur : List OpCode), o ∈ insertOp
 /-- an operation of `new` is offered afterwards unless an operation of its class with OTHER attributes is
 there already (in `cur`, or earlier in `new`) -/
 theorem insertOps_right (o : OpCode) : ∀ (new cur : List OpCode), o ∈ new →
-    (∀ c, c ∈ cur → c.cls = o.cls → c = o) → (∀ c, c ∈ new → c.cls = o.cls → c = o) → o ∈ insertOps cur new
+    (∀ c, c ∈ cur → sameOp c o = true → c = o) → (∀ c, c ∈ new → sameOp c o = true → c = o) → o ∈ insertOps cur new
   | [], _, h, _, _ => by simp at h
   | x :: r, cur, h, hc, hn => by
     simp only [insertOps]
@@ -515,14 +517,14 @@ theorem insertOps_classFun : ∀ (new cur : List OpCode), ClassFun cur → Class
     split
     · exact h
     next hh =>
-      have hno : ∀ c, c ∈ cur → c.cls ≠ x.cls := by
+      have hno : ∀ c, c ∈ cur → sameOp c x ≠ true := by
         intro c hc hcc
         exact hh ((hasClass_iff _ _).mpr ⟨c, hc, hcc⟩)
       intro o o' ho ho' hcc
       rcases List.mem_append.mp ho with h1 | h1 <;> rcases List.mem_append.mp ho' with h2 | h2
       · exact h o o' h1 h2 hcc
       · simp at h2; subst h2; exact absurd hcc (hno o h1)
-      · simp at h1; subst h1; exact absurd hcc.symm (hno o' h2)
+      · simp at h1; subst h1; exact absurd (sameOp_symm hcc) (hno o' h2)
       · simp at h1 h2; rw [h1, h2]
 
 theorem leafOf_ext {N : Nat} {A A' : PE} (h : Ext N A A') {t : Src} {l : Leaf} (hl : A.leafOf t = some l) :
